@@ -54,6 +54,7 @@ type Config struct {
 	Craft                                                     bool // adversary hand-crafted votes
 	Sync                                                      bool // C05: run a synchronous phase after the async prefix
 	AsyncSteps                                                int
+	TwinGap, TwinHorizon                                      int
 }
 
 // Node is one network participant; its ledger and wall clock survive crashes.
@@ -131,6 +132,12 @@ type Sim struct {
 	maxPeriod map[basics.Round]uint64 // highest period seen in honest-originated votes per round
 	batchOwn  map[int][]UVote // own attest votes emitted in the reaction being collected
 	shadowSeq int
+	known       []kernel.Violation
+	twin        *twin
+	twinSeq     int
+	persistSeen int
+	nextTwinAt  int
+	origEffects map[int][]string
 	tallyOn     bool
 	tallies     map[int]map[string]*stepTally
 	refW        map[string]uint64
@@ -258,6 +265,11 @@ func drawConfig(tp *kernel.Tape, prop, tier string) Config {
 		c.MaxCrashes = tp.Range("cfg.maxcrash", 1, 6)
 		c.SlowFlush = tp.Chance("cfg.slowflush", 1, 2)
 		c.DBErr = tp.Chance("cfg.dberr", 1, 4)
+	}
+	if prop == "C07" {
+		c.SlowFlush = false // a twin must be forked when the crash DB equals the in-memory state; delayed persistence breaks that premise
+		c.TwinGap = tp.Range("cfg.twingap", 1, 12)
+		c.TwinHorizon = tp.Range("cfg.twinhorizon", 20, 400)
 	}
 	if prop == "C05" {
 		c.Sync = true
@@ -424,6 +436,12 @@ func (s *Sim) collect() {
 		crashedNow := in.crashReq && n.alive
 		hit := in.trigHit
 		in.mu.Unlock()
+		if s.twin != nil && s.twin.of == n {
+			if s.origEffects == nil {
+				s.origEffects = map[int][]string{}
+			}
+			s.origEffects[n.id] = effectsOf(out, ens, disc)
+		}
 		// canonical order of one reaction's emissions (DESIGN.md F5-c)
 		sort.SliceStable(out, func(i, j int) bool {
 			if out[i].tag != out[j].tag {
@@ -460,6 +478,7 @@ func (s *Sim) collect() {
 			s.finishCrash(n, "trigger@"+hit)
 		}
 	}
+	s.compareTwin()
 	for _, o := range s.oracles {
 		o.onStepEnd(s)
 	}
@@ -471,6 +490,13 @@ func (s *Sim) collect() {
 					if s.shadowTick%3 == 0 || n.crashes > 0 {
 						s.shadowCheck(n, vs)
 					}
+				}
+			}
+		}
+		if s.cfg.Prop == "C07" && s.viol == nil {
+			for _, n := range s.nodes {
+				if len(s.batchOwn[n.id]) > 0 {
+					s.maybeForkTwin(n)
 				}
 			}
 		}
@@ -505,6 +531,9 @@ func (s *Sim) fanout(n *Node, m outMsg, key string) {
 }
 
 func (s *Sim) finishCrash(n *Node, why string) {
+	if s.twin != nil && s.twin.of == n {
+		s.dropTwin("original crashed")
+	}
 	n.alive = false
 	n.crashes++
 	s.crashes++
@@ -620,6 +649,7 @@ func (s *Sim) fireTimer(n *Node) {
 	s.log.Add("timer n%d type=%d at=%v", n.id, best.typ, best.at-best.zero)
 	s.stat("timer", 1)
 	close(ch)
+	s.twinTimer(n, best.typ)
 }
 
 func (s *Sim) stateDigest() string {
@@ -881,12 +911,14 @@ func (s *Sim) asyncStep() {
 	case aFlush:
 		n := pf[rA%len(pf)]
 		k := n.led.flush()
+		s.twinFlush(n)
 		s.log.Add("flush n%d released=%d", n.id, k)
 		s.stat("flush_release", int64(k))
 	case aSync:
 		n := lag[rA%len(lag)]
 		r := n.led.next()
 		ok := n.led.write(s.canon[r], s.canonCert[r])
+		s.twinWrite(n, s.canon[r], s.canonCert[r])
 		s.log.Add("catchup n%d r%d ok=%v", n.id, r, ok)
 		s.stat("catchup_block", 1)
 	case aRestart:
@@ -902,6 +934,9 @@ func (s *Sim) deliver(f *flight) {
 	d := s.nodes[f.to]
 	s.tallyDeliver(f.to, f.tag, f.data)
 	ok := d.cur.net.deliver(f.tag, f.from, f.data)
+	if ok {
+		s.twinDeliver(f)
+	}
 	s.log.Add("deliver m%d %d->%d %s ok=%v", f.id, f.from, f.to, f.key, ok)
 	s.stat("deliver", 1)
 }
@@ -1008,6 +1043,7 @@ func (Engine) Run(t *testing.T, prop, tier string, tape *kernel.Tape, keepLog bo
 	res.Stats = s.stats
 	res.SimMs = int64(s.simTime / time.Millisecond)
 	res.Violation = s.viol
+	res.Known = s.known
 	res.Tape = tape.Rec
 	res.LogLines = s.log.Lines
 	for k := range s.states {
